@@ -4,10 +4,7 @@ import json, os, sys, importlib
 V = os.path.dirname(os.path.dirname(os.path.abspath(__file__)))
 sys.path.insert(0, os.path.join(V, 'harness'))
 props = [json.loads(l) for l in open(os.path.join(V, 'properties.jsonl'))]
-NOT_APPLICABLE = {
-    'C13': 'pure numeric hypothesis of this development (projection round trip to 1e-11 over libm sin/cos/atan2/acos in binary64): Lean can state it but the kernel cannot evaluate the transcendental calls and Mathlib has no verified interval arithmetic for them; sampling it would be a change of technique (DESIGN.md §6)',
-    'C14': 'pure numeric hypothesis (area preservation of the slice-and-dice map to 1e-6): needs spherical measure theory plus libm error analysis, neither available in-kernel; sampling it would be a change of technique (DESIGN.md §6)',
-}
+NOT_APPLICABLE = {}
 checks, na = [], []
 for p in props:
     pid = p['id']
